@@ -24,7 +24,7 @@ NEIGHBOURS = {"C01": ["C02", "C05"], "C02": ["C01", "C12"], "C03": ["C04", "C05"
 HEAD = subprocess.run(["git", "-C", "/repo", "rev-parse", "--short", "HEAD"], capture_output=True, text=True).stdout.strip()
 def one(name):
     d = os.path.join(V, "seeded", name)
-    res = "/tmp/seedfinal/" + name
+    res = os.environ.get("SEED_RES_ROOT", "/tmp/seedfinal") + "/" + name
     os.makedirs(res, exist_ok=True)
     old = json.load(open(os.path.join(d, "meta.json")))
     ids = ["all"] if os.environ.get("SEED_ALL_CHECKS") else [old["breaks_property"]] + NEIGHBOURS.get(old["breaks_property"], [])
